@@ -31,6 +31,7 @@ import EvalFilter.Proofs.WFCheck
 import EvalFilter.Proofs.CompStatic
 import EvalFilter.Proofs.WFStackLoop
 import EvalFilter.Props.Tables
+import EvalFilter.Props.C03
 
 namespace EvalFilter.Props.C18
 open EvalFilter EvalFilter.VM EvalFilter.WF
@@ -113,6 +114,52 @@ theorem C18_unoptimized_no_decode_errors (script : List Char) (env : Env) (fns :
   have := prepared_unoptimized_static script env fns done p env' h obj fuel st
   simp only [internalStatic, not_or] at this
   exact this
+
+/-! ### … and after the optimizer, for programs whose optimisation validates -/
+
+open EvalFilter.Compiler in
+/-- the unoptimised machine of any accepted compilation never ends a run in one of the internal decode errors -/
+theorem C18_compiled_unoptimized_static (prog : Program) (c : Compiled) (hc : compileProgram prog = .ok c)
+    (fns : List (Str × FnImpl)) (done : Nat → Bool) (obj : HostVal) (fuel : Nat) (st : RunSt) :
+    ¬ internalStatic (run (Api.newMachine c false fns done) obj fuel st).1 := by
+  obtain ⟨hm, hf⟩ := compileProgram_static _ c hc
+  have hfuncs : ∀ uf, uf ∈ (Api.newMachine c false fns done).funcs →
+      ∃ instrs, StaticOk (Api.newMachine c false fns done).consts.length uf.code instrs := by
+    intro uf huf
+    simp only [Api.newMachine, List.mem_map] at huf
+    obtain ⟨f, hfm, rfl⟩ := huf
+    exact ⟨_, (hf f hfm).1⟩
+  unfold run
+  split
+  · simp [internalStatic, err]
+  · simp only [finish]
+    have hm' : StaticOk (Api.newMachine c false fns done).consts.length (Api.newMachine c false fns done).main
+        (withOffsets 0 c.main) := hm
+    exact loop_static _ obj hfuncs fuel _ _ hm' 0 [] st (by
+      rcases start_of_static hm' with h | h
+      · left; exact h
+      · right; exact h)
+
+open EvalFilter.Compiler in
+/-- **… and neither does the OPTIMISED program, when its optimisation validates**: a run of the optimised
+    program that ended in an unknown opcode, an instruction pointer out of bounds or a bad constant would be
+    matched by a run of the unoptimised program with the same result (C03) - which never happens. -/
+theorem C18_optimized_no_decode_errors (prog : Program) (c : Compiled) (hc : compileProgram prog = .ok c)
+    (hv : C03.validated c = true) (fns : List (Str × FnImpl)) (obj : HostVal) (fuel : Nat) (st : RunSt) :
+    (run (Api.newMachine c true fns (fun _ => false)) obj fuel st).1 ≠ err "unknownOpcode" ∧
+    (run (Api.newMachine c true fns (fun _ => false)) obj fuel st).1 ≠ err "ipOOB" ∧
+    (run (Api.newMachine c true fns (fun _ => false)) obj fuel st).1 ≠ err "badConstant" := by
+  have key : ¬ internalStatic (run (Api.newMachine c true fns (fun _ => false)) obj fuel st).1 := by
+    intro hi
+    have hend : (run (Api.newMachine c true fns (fun _ => false)) obj fuel st).1 ≠ .error .outOfFuel := by
+      rcases hi with h | h | h <;> (rw [h]; simp [err])
+    obtain ⟨f, h1, _, _⟩ := C03.C03_optimizer_adds_no_finished_runs c fns obj hv fuel st st ⟨rfl, rfl, rfl⟩ hend
+    have := C18_compiled_unoptimized_static prog c hc fns (fun _ => false) obj f st
+    rw [h1] at this
+    exact this hi
+  simp only [internalStatic, not_or] at key
+  exact key
+
 
 /-! ### the stack -/
 
